@@ -4,6 +4,7 @@ import (
 	"fmt"
 	"regexp"
 	"sort"
+	"strconv"
 	"strings"
 
 	"verif/harness/ir"
@@ -176,6 +177,18 @@ func extractPropNames() (string, error) {
 	for i, f := range put {
 		uses = append(uses, use{"openapiv3", "property:PutReq", f.Name, oaProps[i]})
 	}
+	// ---- ts-client: how a failed response becomes an error value
+	errTest := regexp.MustCompile(`if \(([^)]*)\) \{\s*return this\.handleError\(resp\);`).FindStringSubmatch(tc)
+	he := regexp.MustCompile(`(?s)private async handleError\(resp: Response\): Promise<never> \{(.*?)\n  \}\n`).FindStringSubmatch(tc)
+	if errTest == nil || he == nil {
+		return "", fmt.Errorf("ts-client: error handling not found (test %v, handleError %v)", errTest != nil, he != nil)
+	}
+	valTest := regexp.MustCompile(`if \(([^)]*)\) \{\s*try \{`).FindStringSubmatch(he[1])
+	valNeeds := regexp.MustCompile(`if \(([^)]*)\) \{\s*throw new ValidationError\(([^)]*)\);`).FindStringSubmatch(he[1])
+	apiThrow := regexp.MustCompile("throw new ApiError\\(([^;]*)\\);").FindStringSubmatch(he[1])
+	if valTest == nil || valNeeds == nil || apiThrow == nil {
+		return "", fmt.Errorf("ts-client: handleError has an unexpected shape")
+	}
 	sort.SliceStable(uses, func(i, j int) bool { return uses[i].art < uses[j].art })
 	var b strings.Builder
 	b.WriteString("-- REGENERATED by /verif/harness/cmd/extract on every run: the real ts-client, ts-server and openapiv3 plugins are run on a probe schema and the property names are read back from the emitted text. Do not edit.\n")
@@ -191,6 +204,10 @@ func extractPropNames() (string, error) {
 	for i, u := range uses {
 		fmt.Fprintf(&b, "  (%q, %q, %q, %q)%s\n", u.art, u.role, u.field, u.prop, map[bool]string{true: ",", false: ""}[i < len(uses)-1])
 	}
-	b.WriteString("]\nend Sebuf.Gen.PropNames\n")
+	b.WriteString("]\n")
+	b.WriteString("/-- the emitted TS client's error mapping: when a response is an error, when it is a ValidationError (status test, body test, what it carries), what the ApiError carries otherwise. -/\n")
+	fmt.Fprintf(&b, "def tsClientErrorTest : String := %s\ndef tsClientValidationStatusTest : String := %s\ndef tsClientValidationBodyTest : String := %s\ndef tsClientValidationCarries : String := %s\ndef tsClientApiErrorArgs : String := %s\n",
+		strconv.Quote(errTest[1]), strconv.Quote(valTest[1]), strconv.Quote(valNeeds[1]), strconv.Quote(valNeeds[2]), strconv.Quote(apiThrow[1]))
+	b.WriteString("end Sebuf.Gen.PropNames\n")
 	return b.String(), nil
 }
